@@ -48,6 +48,10 @@ impl Toks {
             .or_insert_with(|| Uuid::from_u128(0xDEAD_0000_0000_0000_0000_0000_0000_0000u128 + tok as u128))
     }
     fn payload(&self, p: i64) -> SerializedValue {
+        if p == 9 {
+            // the model's token for an ill-formed value
+            return broker_drivers::raw_value(&[0xff]);
+        }
         SerializedValue::serialize(p as u32).unwrap()
     }
 }
@@ -393,6 +397,12 @@ fn one(behaviour: &J, rng: &mut Rng) -> (Vec<Item>, J) {
     // end of run, as in fuzz-broker: every remaining connection ends one way or another, then idle shutdown
     for n in 0..w.conns.len() {
         if !ended[n] {
+            // a connection task that has already returned is left alone: if the broker still has it
+            // registered, that is for the observer to see
+            if matches!(w.exec.state(w.conns[n].task), TaskState::Done) {
+                ended[n] = true;
+                continue;
+            }
             match rng.below(3) {
                 0 => {
                     w.send(n, Shutdown.into());
